@@ -166,6 +166,17 @@ func body(p pair, mode int, dir string) func(x *sched.Exec) {
 			h.ServeHTTP(w, request(p.probe.raw))
 			x.Logf("%s", outcome(w.Code, bytes.TrimSpace(w.Body.Bytes()), st))
 		}
+		// the same request once more, after everything else has finished: it must be served by the configuration in
+		// force then (a stale cache that survives the reload shows here, not in the overlapping request)
+		after := func() {
+			w := httptest.NewRecorder()
+			h := a.Ingress
+			if p.probe.surface == "pull" {
+				h = a.Pull
+			}
+			h.ServeHTTP(w, request(p.probe.raw))
+			x.Logf("after-status=%d", w.Code)
+		}
 		switch mode {
 		case 0:
 			x.Go("reload", func() {
@@ -183,8 +194,27 @@ func body(p pair, mode int, dir string) func(x *sched.Exec) {
 				}
 				doReq()
 			})
+		case 3: // reference: reload, request, request
+			x.Go("seq", func() {
+				if !a.Reload("verif") {
+					x.Logf("RELOAD-FAILED")
+				}
+				doReq()
+				after()
+			})
+		case 4: // reference: request, reload, request
+			x.Go("seq", func() {
+				doReq()
+				if !a.Reload("verif") {
+					x.Logf("RELOAD-FAILED")
+				}
+				after()
+			})
 		}
 		x.Run()
+		if mode == 0 {
+			after()
+		}
 		x.Finish()
 		a.Shutdown()
 	}
@@ -224,7 +254,40 @@ func schedPart(r *runner.Run, t *testing.T) {
 		if _, child := runner.IsShard(); !child && runner.ReplayPath() == "" {
 			r.Set("pair:"+p.name, map[string]string{"under_old": oldOut, "under_new": newOut})
 		}
+		afterOf := func(mode int) (string, error) {
+			out, err := reference(t, p, mode, dir)
+			if err != nil {
+				return "", err
+			}
+			i := strings.Index(out, "after-status=")
+			if i < 0 {
+				return "", fmt.Errorf("reference run of %s mode %d has no after-status", p.name, mode)
+			}
+			return strings.Fields(out[i:])[0], nil
+		}
+		afterNN, err := afterOf(3)
+		if err != nil {
+			r.Infra("%v", err)
+			continue
+		}
+		afterON, err := afterOf(4)
+		if err != nil {
+			r.Infra("%v", err)
+			continue
+		}
 		oracle := func(x *sched.Exec) {
+			first, after := "", ""
+			for _, l := range x.Log {
+				if strings.HasPrefix(l, "status=") {
+					first = l
+				}
+				if strings.HasPrefix(l, "after-status=") {
+					after = l
+				}
+			}
+			if after != "" && !(first == newOut && after == afterNN) && !(first == oldOut && after == afterON) && (first == oldOut || first == newOut) {
+				sched.Failf("a request made after the reload had completed was not served by the new configuration:\n    observed %s (the overlapping request: %s)\n    expected %s after a request under the new configuration, %s after one under the old", after, first, afterNN, afterON)
+			}
 			for _, l := range x.Log {
 				if l == "RELOAD-FAILED" {
 					sched.Failf("reload of a valid, reloadable configuration failed")
@@ -236,6 +299,11 @@ func schedPart(r *runner.Run, t *testing.T) {
 		}
 		schedrun.Run(r, t, schedrun.Spec{Name: p.name, Bound: -1, Shards: 4, Budget: runner.Pick(r, 20*time.Second, 3*time.Minute), MaxExecs: 200000,
 			Body: body(p, 0, dir), Oracle: oracle,
-			VioKey: func(f *sched.Failure) string { return "reload-mixture:" + p.probe.surface + ":" + p.name }})
+			VioKey: func(f *sched.Failure) string {
+				if strings.Contains(f.Message, "after the reload had completed") {
+					return "reload-stale:" + p.probe.surface + ":" + p.name
+				}
+				return "reload-mixture:" + p.probe.surface + ":" + p.name
+			}})
 	}
 }
